@@ -138,8 +138,8 @@ func (k c03Case) run() (verdict string, errText string) {
 	select {
 	case v := <-done:
 		return v, et
-	case <-time.After(20 * time.Second):
-		return "wedged: no return after 20s", ""
+	case <-time.After(60 * time.Second):
+		return "wedged: no return after 60s", ""
 	}
 }
 
@@ -358,7 +358,7 @@ func (c *Ctx) c03Cases(n int) []c03Case {
 }
 
 func runC03(c *Ctx) error {
-	c.Rep.Rule = "search: Eval on random byte strings (0..40 bytes), token soups (0..24 tokens incl. broken literals and stray quotes), 1..3 byte/token/line mutations of every string literal of the repository's tests and of generated programs; Load and Eval-imports on random in-memory trees (1..4 packages, odd file names, empty files, wrong or missing package clauses, well- and ill-formed build constraints, missing / cyclic / self / malformed imports) with random load arguments; Call and Func on missing names, non-function values, wrong argument counts and requested result counts -1..3; deep nesting (millions of parentheses, unary operators, nested calls, blocks, literals; long operator, selector and index chains; announced before the run so that a fatal stack overflow still yields a replay); every subset of WithTreeDump / WithCodeDump / WithEvalImports (also a nil map); each run under a recover and a 20 s watchdog with a 200000-instruction budget; every error of Eval and Load must carry a stage prefix; distinct = distinct case; non-trivial = the entry point returned an error"
+	c.Rep.Rule = "search: Eval on random byte strings (0..40 bytes), token soups (0..24 tokens incl. broken literals and stray quotes), 1..3 byte/token/line mutations of every string literal of the repository's tests and of generated programs; Load and Eval-imports on random in-memory trees (1..4 packages, odd file names, empty files, wrong or missing package clauses, well- and ill-formed build constraints, missing / cyclic / self / malformed imports) with random load arguments; Call and Func on missing names, non-function values, wrong argument counts and requested result counts -1..3; deep nesting (millions of parentheses, unary operators, nested calls, blocks, literals; long operator, selector and index chains; announced before the run so that a fatal stack overflow still yields a replay); every subset of WithTreeDump / WithCodeDump / WithEvalImports (also a nil map); each run under a recover and a 60 s watchdog with a 200000-instruction budget; every error of Eval and Load must carry a stage prefix; distinct = distinct case; non-trivial = the entry point returned an error"
 	n := 4000
 	if c.Thorough() {
 		n = 400000
@@ -388,8 +388,8 @@ func runC03(c *Ctx) error {
 			d.n = 500000 // the long shapes; one- and two-character shapes keep millions of levels (a few MB of source)
 		}
 		for _, o := range []int{0, 3} {
-			if o == 3 && d.n > 9000 {
-				d.n = 9000 // the dumps render the whole tree per level (quadratic): with them, a depth inside the accepted range
+			if o == 3 && d.n > 2500 {
+				d.n = 2500 // the dumps render the whole tree per level (quadratic): with them, a depth inside the accepted range
 			}
 			src := d.pre + strings.Repeat(d.open, d.n) + d.mid + strings.Repeat(d.close, d.n)
 			if d.name == "if blocks" {
